@@ -102,6 +102,9 @@ impl Sched {
                 if site.ends_with(".pre") {
                     if !free {
                         s2.yield_point(tid, site, args);
+                    } else {
+                        // free-running: nothing parks, the step is only logged
+                        s2.log(tid, site, args);
                     }
                 } else {
                     s2.log(tid, site, args);
